@@ -53,7 +53,7 @@ def comp : Comp :=
     init := fun args => match args with
       | [n] => n.toInt?.map init
       | _ => none,
-    parse := parse, step := step, edge := edge, edges := edges,
+    Aux := Unit, aux0 := (), parse := fun a _ ts => (a, parse ts), step := step, edge := edge, edges := edges,
     descr := fun s t => s!"pc={pcName (s.pc t)} counter={s.counter} mtx={s.mtx} waiters={s.waiters}" }
 
 end Driver.LatchD
